@@ -21,8 +21,8 @@ HARD_TIMEOUT = {'quick': 900, 'thorough': 3000}
 
 def cfg(tier):
     if tier == 'quick':
-        return {'cases': [(3, 1, 1), (5, 1, 2), (7, 2, 1), (5, 2, 2), (3, 2, 2)], 'flags': [0b11111111, 0b00010010, 0]}
-    return {'cases': [(o, d, N) for o in (3, 5, 7) for d in (1, 2) for N in (1, 2, 3)], 'flags': [0b11111111, 0b00010010, 0, 0b10000001, 0b01101100]}
+        return {'cases': [(3, 1, 1), (5, 1, 2), (7, 2, 1), (5, 2, 2), (3, 2, 2)], 'flags': X.PAIRWISE}
+    return {'cases': [(o, d, N) for o in (3, 5, 7) for d in (1, 2) for N in (1, 2, 3)], 'flags': X.TRIPLEWISE}
 
 
 def bounds(tier):
